@@ -1,4 +1,5 @@
 import MioModel.Node
+import MioModel.Handover
 /-! Line-protocol handlers for M4 (`node serial|stop|early …`): the driver plays the scenario on the
 model with a fair eager schedule (network thread, signal thread alternately) and reports what the
 model's log says. -/
@@ -84,6 +85,33 @@ def runNodeTcp (m : String) (late : Nat) : String :=
   let ok := decide (netLog s = List.range (cached + live))
   s!"stream={if ok then "ok" else "broken"} chunks_in_bounds=true connected_first={decide ((netLog s).head? = some 0)}"
 
+/-- the hand-over under steady traffic: one event occurs between any two steps of the caching thread; the
+listener call comes after `before` of them; `join()` must be enabled while events keep arriving -/
+def playHandover (fuel : Nat) (s : Handover.St) : Handover.St :=
+  match fuel with
+  | 0 => s
+  | fuel + 1 =>
+    let s := (Handover.step s .arrive).getD s
+    match Handover.step s .join with
+    | some s' => s'
+    | none => playHandover fuel ((Handover.step s .cache).getD s)
+
+def runNodeEarlyBusy (m : String) : String :=
+  let pre := (List.range 50).foldl (fun s _ =>
+    let s := (Handover.step s .arrive).getD s
+    (Handover.step s .cache).getD s) ({} : Handover.St)
+  let called := (Handover.step pre .call).getD pre
+  let h := playHandover 8 called
+  match h.taken with
+  | none => "order=ok takeover=only-after-traffic"
+  | some c =>
+    let cached := c.length
+    let live := 20
+    let s0 := stepOr (stepOr (init (parseMode m) cached) .start) .callerRelease
+    let s := playNode (40 * (cached + live) + 80) s0 live 0 (fun _ => none)
+    let ok := decide (c = List.range cached ∧ netLog s = List.range (cached + live))
+    s!"order={if ok then "ok" else "broken"} takeover=during-traffic"
+
 def runNode (ws : List String) : String :=
   match ws with
   | ["tcp", m, late] => match late.toNat? with
@@ -94,6 +122,7 @@ def runNode (ws : List String) : String :=
   | ["stop", m, sc, p] => match p.toNat? with
     | some p => runNodeStop m sc p
     | none => "bad-case"
+  | ["earlybusy", m, _] => runNodeEarlyBusy m
   | ["early", m, c, l] => match c.toNat?, l.toNat? with
     | some c, some l => runNodeEarly m c l
     | _, _ => "bad-case"
